@@ -228,6 +228,24 @@ def impl_observations(mod, cases, rundir, tag):
     per = int(getattr(mod, "CASE_TIMEOUT", 20))
     obs, notes, err = run_worker(mod, cases, rundir, tag, timeout=max(120, per * 4 + len(cases)))
     if obs is not None:
+        # a per-case alarm that fired on a busy machine is not a behaviour of the tree: the first few
+        # timed-out cases of a shard are run again, alone, with six times the limit; only a case that
+        # times out again keeps the time-out observation (a tree that really hangs still costs a bounded
+        # amount: at most 3 such re-runs per shard)
+        redo = [i for i, o in enumerate(obs) if o == [-1, 98]][:3]
+        for i in redo:
+            env_per = os.environ.get("VERIF_CASE_TIMEOUT")
+            os.environ["VERIF_CASE_TIMEOUT"] = str(per * 6)
+            try:
+                o, n, e = run_worker(mod, [cases[i]], rundir, "%s_retry%d" % (tag, i), timeout=per * 6 + 60)
+            finally:
+                if env_per is None:
+                    os.environ.pop("VERIF_CASE_TIMEOUT", None)
+                else:
+                    os.environ["VERIF_CASE_TIMEOUT"] = env_per
+            if o is not None and o[0] != [-1, 98]:
+                obs[i] = o[0]
+                notes = [x for x in notes if x[0] != i] + [[i, "timed out under load, re-run alone: completed"]]
         return obs, notes
     if len(cases) == 1:
         return [[-1, 97]], [[0, "worker died: " + (err or "")[-200:]]]
